@@ -95,7 +95,8 @@ type c28Req struct {
 	Method     string            `json:"method,omitempty"`     // grpc full method
 	MD         map[string]string `json:"md,omitempty"`
 	Payload    []byte            `json:"payload,omitempty"`
-	Gzip       bool              `json:"gzip,omitempty"`        // grpc message compression
+	Gzip      bool              `json:"gzip,omitempty"` // grpc message compression
+	RawGzip   bool              `json:"raw_gzip,omitempty"` // grpc: Payload is sent as is, flagged as a gzip-compressed message
 	WatchdogMs int               `json:"watchdog_ms,omitempty"` // 0 = the batch's
 	BodyLen    int               `json:"-"`                     // parent only: len(Raw) / len(Payload) before the parent trimmed them
 	Class      string            `json:"class"`                 // route / content / encoding / body class
@@ -207,19 +208,32 @@ type c28Node struct {
 	httpAddr   [2]string // incoming, peer
 	grpcAddr   string
 	grpcConn   *grpc.ClientConn
+	grpcRawZ   *grpc.ClientConn // same server; messages go out unmodified but flagged "gzip"
 	sinkEvents atomic.Int64
 }
 
+var c28PortCounter atomic.Int64
+
+// c28FreePorts probes ports BELOW the kernel's ephemeral range (outgoing connections of other
+// processes cannot grab them between probing and binding; Router.LnS does not survive a
+// failed gRPC listen: it serves a nil listener).
 func c28FreePorts(n int) ([]string, error) {
 	var ls []net.Listener
 	var out []string
-	for i := 0; i < n; i++ {
-		l, err := net.Listen("tcp", "127.0.0.1:0")
+	for tries := 0; len(out) < n && tries < 200; tries++ {
+		port := 10000 + int((int64(os.Getpid())*131+c28PortCounter.Add(1)*7919+time.Now().UnixNano()/1000)%20000)
+		l, err := net.Listen("tcp", "127.0.0.1:"+strconv.Itoa(port))
 		if err != nil {
-			return nil, err
+			continue
 		}
 		ls = append(ls, l)
 		out = append(out, l.Addr().String())
+	}
+	if len(out) < n {
+		for _, l := range ls {
+			l.Close()
+		}
+		return nil, fmt.Errorf("no free loopback ports")
 	}
 	for _, l := range ls {
 		l.Close()
@@ -399,6 +413,12 @@ func (n *c28Node) startOnce(p c28Profile, dir string) error {
 		return fmt.Errorf("HARNESS: grpc client: %w", err)
 	}
 	n.grpcConn = conn
+	conn2, err := grpc.NewClient(n.grpcAddr, grpc.WithTransportCredentials(insecure.NewCredentials()),
+		grpc.WithDefaultCallOptions(grpc.MaxCallSendMsgSize(math.MaxInt32)), grpc.WithCompressor(c28PassThroughGzip{}))
+	if err != nil {
+		return fmt.Errorf("HARNESS: grpc client: %w", err)
+	}
+	n.grpcRawZ = conn2
 	return nil
 }
 
@@ -435,6 +455,9 @@ func (n *c28Node) stop() {
 	if n.grpcConn != nil {
 		n.grpcConn.Close()
 	}
+	if n.grpcRawZ != nil {
+		n.grpcRawZ.Close()
+	}
 	if n.graph != nil {
 		// stops routers (Router.Stop), collector, transmissions ... in reverse dependency order, as main.go does
 		d := make(chan struct{})
@@ -445,6 +468,14 @@ func (n *c28Node) stop() {
 		}
 	}
 }
+
+// c28PassThroughGzip is a client-side-only grpc.Compressor that claims "gzip" and writes the
+// message bytes unchanged: the payload is a hand-made (forged) gzip member which the server's
+// real gzip decompressor has to deal with. It is not registered in the global encoding registry.
+type c28PassThroughGzip struct{}
+
+func (c28PassThroughGzip) Do(w io.Writer, p []byte) error { _, err := w.Write(p); return err }
+func (c28PassThroughGzip) Type() string                   { return "gzip" }
 
 // c28RawHTTPDo writes raw request bytes to addr and returns everything the server sent.
 func c28RawHTTPDo(addr string, raw []byte, halfClose bool, bound time.Duration) (string, error) {
@@ -488,7 +519,11 @@ func (n *c28Node) send(r *c28Req, watchdog time.Duration) string {
 			opts = append(opts, grpc.UseCompressor("gzip"))
 		}
 		payload := r.Payload
-		err := n.grpcConn.Invoke(ctx, r.Method, &payload, &out, opts...)
+		conn := n.grpcConn
+		if r.RawGzip {
+			conn = n.grpcRawZ
+		}
+		err := conn.Invoke(ctx, r.Method, &payload, &out, opts...)
 		code := codes.OK
 		if err != nil {
 			st, _ := status.FromError(err)
@@ -1311,11 +1346,24 @@ func (g *c28Gen) eventTime() string {
 func (g *c28Gen) encode(body []byte) ([]byte, string, string) {
 	rng := g.rng
 	r := &E3Req{Body: body}
-	k := rng.Intn(12)
+	k := rng.Intn(17)
 	if g.benign {
 		k = verifkit.Pick(rng, 0, 2, 11)
 	}
 	switch k {
+	case 12, 13, 14: // zstd frame(s) with valid magic and forged header fields
+		b, l := c28ZstdForged(rng, body)
+		return b, verifkit.Pick(rng, "zstd", "zstd", "zstd", "zstd", "zstd", "zstd", "zstd", "gzip"), "zstd-forged/" + l
+	case 15: // gzip member(s) with forged fields
+		b, l := c28GzipForged(rng, body)
+		return b, verifkit.Pick(rng, "gzip", "gzip", "gzip", "gzip", "gzip", "gzip", "gzip", "zstd"), "gzip-forged/" + l
+	case 16: // honest compression under the other label
+		if rng.Bool() {
+			r.Gzip()
+			return r.Body, "zstd", "gzip-as-zstd"
+		}
+		r.Zstd()
+		return r.Body, "gzip", "zstd-as-gzip"
 	case 0, 1:
 		r.Gzip()
 		return r.Body, "gzip", "gzip"
@@ -1341,6 +1389,166 @@ func (g *c28Gen) encode(body []byte) ([]byte, string, string) {
 		return r2.Body, verifkit.Pick(rng, "zstd", "gzip"), "double"
 	default:
 		return body, "", "plain"
+	}
+}
+
+// c28Sizes: boundary values for declared sizes.
+var c28Sizes = []uint64{0, 1, 255, 256, 65535, 65536 + 255, 1 << 20, 5_000_000, 8 << 20, 8<<20 + 1, 1 << 31, 1<<32 - 1, 1 << 32, 1 << 40, 1 << 42, 1 << 47, 1 << 62, 1 << 63, 1<<64 - 1}
+
+func c28LE(v uint64, n int) []byte {
+	b := make([]byte, n)
+	for i := 0; i < n; i++ {
+		b[i] = byte(v >> (8 * i))
+	}
+	return b
+}
+
+// c28ZstdFrame: a zstd frame with a valid magic number and freely chosen header fields,
+// followed by blocks ("raw": payload in raw blocks; "rle": one RLE block of blockSize
+// bytes; "lying": a block header that announces more than follows, any block type;
+// "none": no block at all, i.e. truncated after the header).
+func c28ZstdFrame(fcsFlag int, single bool, windowByte byte, dictFlag int, dictID uint64, fcs uint64, checksum bool, reserved bool, blocks string, payload []byte, blockSize uint32) []byte {
+	b := []byte{0x28, 0xb5, 0x2f, 0xfd}
+	d := byte(fcsFlag<<6) | byte(dictFlag)
+	if single {
+		d |= 1 << 5
+	}
+	if checksum {
+		d |= 1 << 2
+	}
+	if reserved {
+		d |= 1 << 3
+	}
+	b = append(b, d)
+	if !single {
+		b = append(b, windowByte)
+	}
+	b = append(b, c28LE(dictID, []int{0, 1, 2, 4}[dictFlag])...)
+	switch fcsFlag {
+	case 0:
+		if single {
+			b = append(b, byte(fcs))
+		}
+	case 1:
+		b = append(b, c28LE(fcs-256, 2)...)
+	case 2:
+		b = append(b, c28LE(fcs, 4)...)
+	default:
+		b = append(b, c28LE(fcs, 8)...)
+	}
+	hdr := func(last bool, typ int, size uint32) []byte {
+		v := size<<3 | uint32(typ)<<1
+		if last {
+			v |= 1
+		}
+		return []byte{byte(v), byte(v >> 8), byte(v >> 16)}
+	}
+	switch blocks {
+	case "raw":
+		for len(payload) > 100_000 {
+			b = append(append(b, hdr(false, 0, 100_000)...), payload[:100_000]...)
+			payload = payload[100_000:]
+		}
+		b = append(append(b, hdr(true, 0, uint32(len(payload)))...), payload...)
+	case "rle":
+		b = append(append(b, hdr(true, 1, blockSize)...), 'A')
+	case "lying":
+		b = append(append(b, hdr(true, int(blockSize%4), blockSize)...), payload[:min(len(payload), 8)]...)
+	}
+	if checksum && blocks != "none" {
+		b = append(b, 1, 2, 3, 4)
+	}
+	return b
+}
+
+func c28Log2(v uint64) int {
+	n := -1
+	for ; v > 0; v >>= 1 {
+		n++
+	}
+	return n
+}
+
+// c28ZstdForged: structure-aware hostile zstd bodies around payload.
+func c28ZstdForged(rng *verifkit.Rand, payload []byte) ([]byte, string) {
+	if len(payload) > 200_000 {
+		payload = payload[:200_000]
+	}
+	size := c28Sizes[rng.Intn(len(c28Sizes))]
+	fcsFlag := rng.Intn(4)
+	forged := func() []byte {
+		single := rng.Chance(0.3)
+		window := verifkit.Pick[byte](rng, 0x00, 0x00, 0x00, 0x01, 0x50, 0x68, 0x70, 0x88, 0xf8, 0xff, byte(rng.Intn(256)))
+		dictFlag := verifkit.Pick(rng, 0, 0, 0, 1, 2, 3)
+		blocks := verifkit.Pick(rng, "none", "none", "raw", "raw", "rle", "lying")
+		bs := verifkit.Pick[uint32](rng, 0, 1, 1000, 128<<10, 128<<10+1, 1<<21-1)
+		return c28ZstdFrame(fcsFlag, single, window, dictFlag, verifkit.Pick[uint64](rng, 0, 1, 0xffffffff), size, rng.Chance(0.2), rng.Chance(0.05), blocks, payload, bs)
+	}
+	honest := func() []byte { return append([]byte(nil), (&E3Req{Body: payload}).Zstd().Body...) }
+	skippable := func() []byte {
+		b := []byte{byte(0x50 + rng.Intn(16)), 0x2a, 0x4d, 0x18}
+		l := verifkit.Pick[uint64](rng, 0, 4, 1<<31, 1<<32-1, 1<<32-8)
+		b = append(b, c28LE(l, 4)...)
+		return append(b, c28Random(rng, int(min(l, 16)))...)
+	}
+	label := fmt.Sprintf("fcs%d~2^%d", fcsFlag, c28Log2(size))
+	switch rng.Intn(7) {
+	case 0, 1, 2:
+		return forged(), "frame/" + label
+	case 3:
+		return append(honest(), forged()...), "honest+forged/" + label
+	case 4:
+		return append(skippable(), honest()...), "skippable+honest"
+	case 5:
+		return append(honest(), skippable()...), "honest+skippable"
+	default:
+		var b []byte
+		for i := rng.Range(2, 40); i > 0; i-- { // many RLE frames: decompression bomb up to the decoder's limit
+			b = append(b, c28ZstdFrame(0, false, 0x50, 0, 0, 0, false, false, "rle", nil, 1<<21-1)...)
+		}
+		return b, "rle-bomb"
+	}
+}
+
+// c28GzipForged: gzip members with forged ISIZE / CRC / FLG / extra-field lengths, concatenated members.
+func c28GzipForged(rng *verifkit.Rand, payload []byte) ([]byte, string) {
+	if len(payload) > 200_000 {
+		payload = payload[:200_000]
+	}
+	b := append([]byte(nil), (&E3Req{Body: payload}).Gzip().Body...)
+	switch rng.Intn(9) {
+	case 0: // forged ISIZE
+		copy(b[len(b)-4:], c28LE(verifkit.Pick[uint64](rng, 0, 1<<31, 1<<32-1, 5_000_001), 4))
+		return b, "isize"
+	case 1: // forged CRC
+		b[len(b)-8] ^= 0xff
+		return b, "crc"
+	case 2: // FEXTRA with a length the member does not have
+		xlen := verifkit.Pick[uint64](rng, 0, 1, 0xffff, 0x8000)
+		h := append([]byte{0x1f, 0x8b, 8, 4, 0, 0, 0, 0, 0, 0xff}, c28LE(xlen, 2)...)
+		return append(append(h, c28Random(rng, int(min(xlen, 6)))...), b[10:]...), "fextra"
+	case 3: // FNAME / FCOMMENT never terminated, FHCRC, reserved flag bits
+		flg := verifkit.Pick[byte](rng, 8, 16, 2, 0x1f, 0xe0, 0xff)
+		h := []byte{0x1f, 0x8b, 8, flg, 0, 0, 0, 0, 0, 0xff}
+		return append(append(h, bytes.Repeat([]byte{'n'}, verifkit.Pick(rng, 0, 10, 70000))...), b[10:]...), "flags"
+	case 4: // concatenated members
+		n := rng.Range(2, 5)
+		var out []byte
+		for i := 0; i < n; i++ {
+			out = append(out, b...)
+		}
+		return out, "members"
+	case 5: // valid member followed by a header only / garbage
+		tail := verifkit.Pick(rng, []byte{0x1f, 0x8b, 8, 0, 0, 0, 0, 0, 0, 0xff}, []byte{0x1f, 0x8b}, []byte{0, 0, 0, 0}, c28Random(rng, 20))
+		return append(b, tail...), "member+tail"
+	case 6: // unknown compression method / stored block with inconsistent LEN/NLEN
+		return verifkit.Pick(rng, []byte{0x1f, 0x8b, 9, 0, 0, 0, 0, 0, 0, 0xff, 1, 0, 0, 0xff, 0xff}, []byte{0x1f, 0x8b, 8, 0, 0, 0, 0, 0, 0, 0xff, 1, 0xff, 0xff, 0xff, 0xff, 'x'},
+			[]byte{0x1f, 0x8b, 8, 0, 0, 0, 0, 0, 0, 0xff, 1, 5, 0, 0xfa, 0xff, 'a', 'b'}, []byte{0x1f, 0x8b, 8, 0, 0, 0, 0, 0, 0, 0xff, 7}), "deflate-literal"
+	case 7: // truncated inside the trailer / the header
+		return b[:max(0, min(len(b), verifkit.Pick(rng, 3, 9, 10, 11, len(b)-8, len(b)-5, len(b)-1)))], "trunc"
+	default: // bomb: zeros beyond the 5 MB / 20 MiB limits in a few KB
+		z := &E3Req{Body: make([]byte, verifkit.Pick(rng, 5_000_001, 21<<20))}
+		return append([]byte(nil), z.Gzip().Body...), "bomb"
 	}
 }
 
@@ -1876,6 +2084,12 @@ func (g *c28Gen) otlpGRPC(logs, extreme bool) c28Req {
 		}, c28Str(rng)), 200)
 	}
 	r.Class = "grpc" + r.Method[strings.LastIndex(r.Method[:strings.LastIndex(r.Method, "/")], ".")+1:] + "/" + class
+	if !extreme && !r.Gzip && rng.Chance(0.12) {
+		var l string
+		r.Payload, l = c28GzipForged(rng, body)
+		r.RawGzip = true
+		r.Class += "/gzip-forged/" + l
+	}
 	if r.Gzip {
 		r.Class += "/gzip"
 	}
@@ -2009,7 +2223,7 @@ func c28OutcomeClass(note string) string {
 func c28Witness(r *c28Req, extra map[string]any) map[string]any {
 	w := map[string]any{"index": r.Index, "class": r.Class, "desc": r.Desc, "proto": r.Proto}
 	if r.Proto == "grpc" {
-		w["method"], w["metadata"], w["grpc_gzip"] = r.Method, c28ClipMD(r.MD), r.Gzip
+		w["method"], w["metadata"], w["grpc_gzip"] = r.Method, c28ClipMD(r.MD), r.Gzip || r.RawGzip
 		w["payload_len"] = max(r.BodyLen, len(r.Payload))
 		w["payload_head_base64"] = base64.StdEncoding.EncodeToString(r.Payload[:min(len(r.Payload), 600)])
 	} else {
@@ -2035,7 +2249,7 @@ func TestVerif_C28Requests(t *testing.T) {
 	}
 	run := verifkit.Start(t, "C28", "requests")
 	defer run.Finish()
-	run.Rule("seeded structure-aware hostile requests (no coverage guidance): every HTTP route (/1/events, /1/batch, /v1/traces, /v1/logs, /alive, /ready, /version, /panic, /query/*, proxied paths) x content types (JSON, msgpack, protobuf, OTLP JSON, wrong pairings) x encodings (none, gzip, zstd, label only, odd label, corrupt, double) with bodies that are valid-but-weird value trees (wrong-typed time/samplerate/data/trace id/meta fields, NaN, ext types, duplicate keys, huge maps), byte-mutated, truncated, random, huge declared lengths, moderately and maximally nested; hostile headers (API keys, sample rate, event time, dataset escapes, content-length mismatches, chunked, huge headers); gRPC trace/logs Export with raw payloads through a raw codec; both listeners. Every request is sent to a real node (validated config, real routers/collector/samplers/transmissions) in a child process; non-trivial = the node answered the request; distinct = distinct (route, listener, content, body class, encoding, outcome class)")
+	run.Rule("seeded structure-aware hostile requests (no coverage guidance): every HTTP route (/1/events, /1/batch, /v1/traces, /v1/logs, /alive, /ready, /version, /panic, /query/*, proxied paths) x content types (JSON, msgpack, protobuf, OTLP JSON, wrong pairings) x encodings (none, gzip, zstd, label only, odd label, label disagreeing with the body, byte-corrupted, double, zstd frames with valid magic and forged header fields [single-segment flag, window descriptor, dictionary id, content-size field of every width with values 0..2^64-1], truncated after the header, honest frame followed by a forged one, skippable frames with huge lengths, RLE bombs, gzip members with forged ISIZE/CRC/flags/extra-field length, concatenated members, deflate bombs; forged gzip messages also on gRPC) with bodies that are valid-but-weird value trees (wrong-typed time/samplerate/data/trace id/meta fields, NaN, ext types, duplicate keys, huge maps), byte-mutated, truncated, random, huge declared lengths, moderately and maximally nested; hostile headers (API keys, sample rate, event time, dataset escapes, content-length mismatches, chunked, huge headers); gRPC trace/logs Export with raw payloads through a raw codec; both listeners. Every request is sent to a real node (validated config, real routers/collector/samplers/transmissions) in a child process; non-trivial = the node answered the request; distinct = distinct (route, listener, content, body class, encoding, outcome class)")
 	run.Assume("the child process limits its address space (4 GiB quick, 16 GiB thorough): a request of a few MB that needs more is a crash (runtime out of memory)")
 	run.Assume("quick tier: goroutine stacks are limited to 1/16 of the runtime default (62.5 MB instead of 1 GB) and maximal-nesting inputs are 1/16 of what the body size limits (5 MB libhoney, 20 MiB OTLP/HTTP, 15 MB gRPC) admit, assuming stack use linear in nesting depth; thorough tier: runtime default and full-size inputs")
 	run.Assume("a crash is attributed to the request named by the write-ahead log; when it does not reproduce with per-request draining the witness is the preceding window of requests")
@@ -2139,11 +2353,15 @@ func TestVerif_C28Requests(t *testing.T) {
 				return
 			}
 			nreq := bd.hi - bd.lo
-			start := 0
+			start, startupRetries := 0, 0
 			t0 := time.Now()
 			defer func() { t.Logf("batch %d: %d child runs, %.1fs", bd.lo, len(res.outcomes), time.Since(t0).Seconds()) }()
 			for restarts := 0; start <= nreq && restarts <= 40; restarts++ {
 				out := verifkit.RunChild(dir, c28ChildTest, bd.file, start, childTimeout)
+				if out.CrashedAt == -2 && len(out.Done) == 0 && startupRetries < 2 {
+					startupRetries++ // died while starting the node (port taken in between): not an observation
+					continue
+				}
 				res.outcomes = append(res.outcomes, out)
 				res.starts = append(res.starts, start)
 				next := -1
